@@ -62,6 +62,7 @@ def run(chk):
     chk.rule("R1", "each ColFn(ops.X, ..) site: method name = catalogue name, own parameters in order (swapped if reflected), context kwargs forwarded by name")
     chk.rule("R2", "default implementation of each dunder operator is `p1 OP p2` / `OP p1` with the matching Python operator")
     chk.rule("R3", "case expressions are compiled branch by branch in order, (condition -> when, value -> then), default only if present")
+    chk.rule("R3v", "the CaseExpr branch of SqlImpl.compile_col_expr interpreted on stub case expressions (equal values in non-adjacent cases, with / without default): one WHEN per case in order, or a statement that selects the same branch for every valuation of the conditions over {true, false, null}")
     chk.rule("R4", "every catalogue operator has an API construction site; generated methods exist for generate_expr_method operators")
     chk.rule("R5", "sign analysis: Polars emulation of truncating // and % yields sign(lhs)*sign(rhs) resp. sign(lhs)")
     chk.rule("R7", "SQL implementations of string-valued operators return a typed expression (an untyped func.X(..) makes `+` render as numeric addition instead of ||)")
@@ -358,7 +359,27 @@ def _case_rule(chk, repo):
                    "the default of a case expression must be attached exactly when one was given")  # fmt: skip
     sql = repo.mod("backend.sql")
     f = sql.func("SqlImpl.compile_col_expr")
-    for n in ast.walk(f):
+    # the SQL side is decided on the interpreted CaseExpr branch (pipesim.case_scenarios_sql: one WHEN per case in order, or a
+    # statement that means the same for every valuation of the conditions); the spelling of the sqa.case call is the fallback
+    from .. import pipesim as _ps3
+    from ..interp import PyRaise as _PR3
+    from ..model import model_of as _mo3
+    from .c17 import m_types_env as _mte3
+
+    sql_case_decided = False
+    try:
+        res_c = _ps3.case_scenarios_sql(_ps3.RealWorld(repo, _mte3(_mo3(chk))))
+        for desc, ok_, detail in res_c:
+            chk.ob("R3v", sql, f, f"sql CaseExpr interpreted: {desc}", ok_, detail)
+        sql_case_decided = True
+        found += 1
+    except (AnalysisError, SymbolicBranch, KeyError) as e:
+        chk.undecided.append(f"R3: the CaseExpr branch of SqlImpl.compile_col_expr could not be interpreted ({str(e)[:140]})")
+    except _PR3 as p_:
+        chk.ob("R3", sql, f, "sql CaseExpr branch on stubs", False, f"setting up the scenario raises {p_.name}: {p_.msg}")
+        sql_case_decided = True
+        found += 1
+    for n in ast.walk(f) if not sql_case_decided else ():
         if isinstance(n, ast.If) and "CaseExpr" in norm(n.test) and "isinstance" in norm(n.test):
             found += 1
             good, why = False, "no sqa.case(*((cond, val) for cond, val in expr.cases), else_=..) found"
